@@ -19,6 +19,22 @@ use crate::engine::{catch, sha_hex};
 pub struct ChildCase {
     pub files: Vec<SrcFile>,
     pub trace: Vec<Step>,
+    /// retain store to attach for the trace (None = no store)
+    #[serde(default)]
+    pub retain: Option<RetainCfg>,
+    /// directory whose `src/` holds the files on disk (projects with absolute source paths):
+    /// `bundle_builder::build_program_stbc` is run on it as one more compile entry point
+    #[serde(default)]
+    pub bundle_sources: Option<String>,
+}
+
+/// A retain store attached to the runtime while the trace runs.
+#[derive(Clone, Debug, Serialize, Deserialize, PartialEq)]
+pub struct RetainCfg {
+    /// save interval in SIMULATED nanoseconds; None = store configured without an interval
+    pub interval_ns: Option<i64>,
+    /// FileRetainStore in the child's scratch directory instead of the logging in-memory store
+    pub file: bool,
 }
 
 #[derive(Clone, Debug, Serialize, Deserialize)]
@@ -45,6 +61,14 @@ pub struct Job {
     /// after the other on one thread
     #[serde(default)]
     pub separate_threads: bool,
+    /// replay the traces of projects with a retain store with a REAL delay between the cycles
+    /// (input, not oracle): 3 ms per cycle for the 1 ms save interval (both repetitions),
+    /// 600 ms for the first three cycles of the second repetition for the 500 ms interval
+    #[serde(default)]
+    pub cycle_delays: bool,
+    /// child-private scratch directory (retain files, bundle output)
+    #[serde(default)]
+    pub scratch: String,
 }
 
 /// One repetition (compile + run) of one case in one process.
@@ -63,6 +87,16 @@ pub struct Rep {
     pub strings: usize,
     pub fault_count: usize,
     pub event_count: usize,
+    /// SHA-256 of the state a FRESH runtime has after loading the retain store the trace left
+    /// behind (no final save) - "" when the case has no store
+    #[serde(default)]
+    pub restored: String,
+    /// number of images the logging store received
+    #[serde(default)]
+    pub stores: usize,
+    /// SHA-256 of the program.stbc `bundle_builder::build_program_stbc` wrote ("" = not run)
+    #[serde(default)]
+    pub bundle: String,
     /// `full` mode only: the artefacts as text
     #[serde(default)]
     pub full: Option<Full>,
@@ -76,6 +110,10 @@ pub struct Full {
     pub cycles: Vec<Vec<String>>,
     pub faults: Vec<String>,
     pub events: Vec<String>,
+    #[serde(default)]
+    pub restored: Vec<String>,
+    #[serde(default)]
+    pub bundle_error: String,
 }
 
 #[derive(Clone, Debug, Serialize, Deserialize)]
@@ -142,6 +180,94 @@ fn section_slices(bytes: &[u8]) -> Vec<(u16, &[u8])> {
     }
     out
 }
+
+// ----------------------------------------------------------------------- retain stores
+
+#[derive(Default)]
+struct MemInner {
+    image: Option<trust_runtime::RetainSnapshot>,
+    stores: usize,
+}
+
+/// In-memory retain store that counts what it receives.
+#[derive(Clone, Default)]
+struct MemStore {
+    inner: std::sync::Arc<std::sync::Mutex<MemInner>>,
+}
+
+impl trust_runtime::retain::RetainStore for MemStore {
+    fn load(&self) -> Result<trust_runtime::RetainSnapshot, trust_runtime::error::RuntimeError> {
+        Ok(self.inner.lock().map(|g| g.image.clone().unwrap_or_default()).unwrap_or_default())
+    }
+    fn store(&self, snapshot: &trust_runtime::RetainSnapshot) -> Result<(), trust_runtime::error::RuntimeError> {
+        if let Ok(mut g) = self.inner.lock() {
+            g.image = Some(snapshot.clone());
+            g.stores += 1;
+        }
+        Ok(())
+    }
+}
+
+fn plain_lines(path: &str, v: &Value, out: &mut Vec<String>) {
+    match v {
+        Value::Real(f) => out.push(format!("{path} = Real(0x{:08x})", f.to_bits())),
+        Value::LReal(f) => out.push(format!("{path} = LReal(0x{:016x})", f.to_bits())),
+        Value::Array(a) => {
+            out.push(format!("{path} = Array{:?}", a.dimensions));
+            for (i, e) in a.elements.iter().enumerate() {
+                plain_lines(&format!("{path}[{i}]"), e, out);
+            }
+        }
+        Value::Struct(s) => {
+            out.push(format!("{path} = Struct({})", s.type_name));
+            let mut f: Vec<(&str, &Value)> = s.fields.iter().map(|(k, v)| (k.as_str(), v)).collect();
+            f.sort_by(|a, b| a.0.cmp(b.0));
+            for (n, e) in f {
+                plain_lines(&format!("{path}.{n}"), e, out);
+            }
+        }
+        other => out.push(format!("{path} = {other:?}")),
+    }
+}
+
+fn snapshot_digest(s: &trust_runtime::RetainSnapshot) -> String {
+    let mut items: Vec<(&str, &Value)> = s.values().iter().map(|(k, v)| (k.as_str(), v)).collect();
+    items.sort_by(|a, b| a.0.cmp(b.0));
+    let mut lines = Vec::new();
+    for (k, v) in items {
+        plain_lines(k, v, &mut lines);
+    }
+    sha_hex(lines.join("\n").as_bytes())
+}
+
+enum Attached {
+    Mem(MemStore),
+    File(std::path::PathBuf),
+}
+
+impl Attached {
+    fn boxed(&self) -> Box<dyn trust_runtime::retain::RetainStore> {
+        match self {
+            Attached::Mem(m) => Box::new(m.clone()),
+            Attached::File(p) => Box::new(trust_runtime::retain::FileRetainStore::new(p.clone())),
+        }
+    }
+    /// What the backing medium holds right now.
+    fn observe(&self) -> String {
+        match self {
+            Attached::Mem(m) => match m.inner.lock() {
+                Ok(g) => format!("retain.store: stores={} image={}", g.stores, g.image.as_ref().map(snapshot_digest).unwrap_or_else(|| "none".into())),
+                Err(_) => "retain.store: poisoned".into(),
+            },
+            Attached::File(p) => match std::fs::read(p) {
+                Ok(b) => format!("retain.file: {} bytes sha={}", b.len(), sha_hex(&b)),
+                Err(_) => "retain.file: absent".into(),
+            },
+        }
+    }
+}
+
+static RETAIN_FILE_SEQ: std::sync::atomic::AtomicUsize = std::sync::atomic::AtomicUsize::new(0);
 
 // ------------------------------------------------------------------------------- dump
 
@@ -337,7 +463,7 @@ fn fmt_event(e: &RuntimeEvent) -> String {
     format!("{e:?}")
 }
 
-fn run_rep(case: &ChildCase, full: bool, public_api: bool) -> Rep {
+fn run_rep(case: &ChildCase, full: bool, public_api: bool, rep_index: usize, ctx: &RunEnv) -> Rep {
     let mut rep = Rep::default();
     let mut fl = Full::default();
     // 1. compile to a container. With `public_api` (first repetition of the first child) the
@@ -349,7 +475,24 @@ fn run_rep(case: &ChildCase, full: bool, public_api: bool) -> Rep {
     let session = CompileSession::from_sources(sources(case));
     let mut runtime: Option<Result<Runtime, String>> = None;
     let compiled: Result<Vec<u8>, String> = if public_api {
-        session.build_bytecode_bytes().map_err(|e| e.to_string())
+        // every public entry point that fits the shape of the project
+        let texts: Vec<&str> = case.files.iter().map(|f| f.text.as_str()).collect();
+        let all_paths = case.files.iter().all(|f| f.path.is_some());
+        let no_paths = case.files.iter().all(|f| f.path.is_none());
+        let paths: Vec<&str> = case.files.iter().map(|f| f.path.as_deref().unwrap_or_default()).collect();
+        use trust_runtime::harness as h;
+        let r = if all_paths && texts.len() == 1 {
+            h::bytecode_bytes_from_source_with_path(texts[0], paths[0])
+        } else if all_paths {
+            h::bytecode_bytes_from_sources_with_paths(&texts, &paths)
+        } else if no_paths && texts.len() == 1 {
+            h::bytecode_bytes_from_source(texts[0])
+        } else if no_paths {
+            h::bytecode_bytes_from_sources(&texts)
+        } else {
+            session.build_bytecode_bytes()
+        };
+        r.map_err(|e| e.to_string())
     } else {
         match session.build_runtime() {
             Ok(rt) => {
@@ -405,6 +548,26 @@ fn run_rep(case: &ChildCase, full: bool, public_api: bool) -> Rep {
     match runtime {
         Ok(mut rt) => {
             let debug = rt.enable_debug();
+            // retain store (its save interval is SIMULATED time)
+            let attached: Option<Attached> = case.retain.as_ref().map(|cfg| {
+                if cfg.file && !ctx.scratch.is_empty() {
+                    let n = RETAIN_FILE_SEQ.fetch_add(1, std::sync::atomic::Ordering::SeqCst);
+                    let p = std::path::Path::new(&ctx.scratch).join(format!("retain-{n}.bin"));
+                    let _ = std::fs::remove_file(&p);
+                    Attached::File(p)
+                } else {
+                    Attached::Mem(MemStore::default())
+                }
+            });
+            let interval = case.retain.as_ref().and_then(|c| c.interval_ns).map(Duration::from_nanos);
+            if let Some(a) = &attached {
+                rt.set_retain_store(Some(a.boxed()), interval);
+            }
+            let delay_ms: u64 = match (ctx.cycle_delays, case.retain.as_ref().and_then(|c| c.interval_ns)) {
+                (true, Some(1_000_000)) => 3,
+                (true, Some(500_000_000)) if rep_index == 1 => 600,
+                _ => 0,
+            };
             for (i, step) in case.trace.iter().enumerate() {
                 for w in &step.writes {
                     match w {
@@ -428,7 +591,16 @@ fn run_rep(case: &ChildCase, full: bool, public_api: bool) -> Rep {
                 if let Err(e) = &res {
                     faults.push(format!("cycle {i}: {e}"));
                 }
-                let lines = dump_state(&rt, i, &res);
+                let mut lines = dump_state(&rt, i, &res);
+                if let Some(a) = &attached {
+                    // what a power loss right after this cycle would leave behind
+                    lines.push(a.observe());
+                }
+                if delay_ms > 0 && (delay_ms < 100 || i < 3) {
+                    // deliberate host delay between cycles (an input: the same clock trace
+                    // replayed more slowly in real time)
+                    std::thread::sleep(std::time::Duration::from_millis(delay_ms));
+                }
                 rep.cycles.push(sha_hex(lines.join("\n").as_bytes()));
                 if full {
                     fl.cycles.push(lines);
@@ -437,9 +609,53 @@ fn run_rep(case: &ChildCase, full: bool, public_api: bool) -> Rep {
                     events.push(format!("cycle {i}: {}", fmt_event(&ev)));
                 }
             }
+            // power loss: the runtime is dropped WITHOUT a final save; a fresh runtime of the same
+            // project loads whatever the store holds
+            if let Some(a) = &attached {
+                if let Attached::Mem(m) = a {
+                    rep.stores = m.inner.lock().map(|g| g.stores).unwrap_or(0);
+                }
+                drop(rt);
+                let lines = match session.build_runtime() {
+                    Ok(mut fresh) => {
+                        fresh.set_retain_store(Some(a.boxed()), interval);
+                        let loaded = fresh.load_retain_store().map_err(|e| format!("{e:?}"));
+                        let mut l = dump_state(&fresh, 0, &loaded);
+                        l.insert(0, "restored after power loss".into());
+                        l
+                    }
+                    Err(e) => vec![format!("fresh runtime: {e}")],
+                };
+                rep.restored = sha_hex(lines.join("\n").as_bytes());
+                if full {
+                    fl.restored = lines;
+                }
+                if let Attached::File(p) = a {
+                    let _ = std::fs::remove_file(p);
+                }
+            }
         }
         Err(e) => {
             faults.push(format!("build_runtime: {e}"));
+        }
+    }
+    // 3. one more compile entry point for projects that exist on disk: the bundle builder
+    if rep_index == 0 {
+        if let (Some(root), false) = (&case.bundle_sources, ctx.scratch.is_empty()) {
+            let out_root = std::path::Path::new(&ctx.scratch).join("bundle");
+            let _ = std::fs::remove_dir_all(&out_root);
+            let _ = std::fs::create_dir_all(&out_root);
+            let src = std::path::Path::new(root).join("src");
+            match trust_runtime::bundle_builder::build_program_stbc(&out_root, Some(&src)) {
+                Ok(report) => match std::fs::read(&report.program_path) {
+                    Ok(b) => rep.bundle = sha_hex(&b),
+                    Err(e) => rep.bundle = format!("ERR:read {e}"),
+                },
+                Err(e) => {
+                    rep.bundle = "ERR".into();
+                    fl.bundle_error = format!("{e:#}");
+                }
+            }
         }
     }
     rep.fault_count = faults.len();
@@ -454,13 +670,20 @@ fn run_rep(case: &ChildCase, full: bool, public_api: bool) -> Rep {
     rep
 }
 
-pub fn run_case(case: &ChildCase, full: bool, pause_ms: u64, public_api: bool) -> CaseResult {
+/// Per-child settings a repetition needs.
+#[derive(Clone, Default)]
+pub struct RunEnv {
+    pub cycle_delays: bool,
+    pub scratch: String,
+}
+
+pub fn run_case(case: &ChildCase, full: bool, pause_ms: u64, public_api: bool, env: &RunEnv) -> CaseResult {
     let mut reps = Vec::new();
     for k in 0..2 {
         if k == 1 && pause_ms > 0 {
             std::thread::sleep(std::time::Duration::from_millis(pause_ms));
         }
-        let rep = match catch(|| run_rep(case, full, public_api && k == 0)) {
+        let rep = match catch(|| run_rep(case, full, public_api && k == 0, k, env)) {
             Ok(r) => r,
             Err(msg) => Rep { stbc: format!("PANIC:{msg}"), ..Rep::default() },
         };
@@ -470,7 +693,7 @@ pub fn run_case(case: &ChildCase, full: bool, pause_ms: u64, public_api: bool) -
 }
 
 pub fn run_case_dev(case: &ChildCase, full: bool) -> CaseResult {
-    run_case(case, full, 0, true)
+    run_case(case, full, 0, true, &RunEnv::default())
 }
 
 /// `tpv c05-worker <job-file>`
@@ -526,7 +749,7 @@ pub fn main(args: &[String]) -> i32 {
         for (pos, idx) in order.iter().copied().enumerate() {
             let j = job.clone();
             let h = std::thread::Builder::new().stack_size(64 << 20).spawn(move || {
-                run_case(&j.cases[idx], j.full, if pos == 0 { j.pause_ms } else { 0 }, j.public_api)
+                run_case(&j.cases[idx], j.full, if pos == 0 { j.pause_ms } else { 0 }, j.public_api, &RunEnv { cycle_delays: j.cycle_delays, scratch: j.scratch.clone() })
             });
             match h.map(|h| h.join()) {
                 Ok(Ok(r)) => results[idx] = Some(r),
@@ -544,7 +767,7 @@ pub fn main(args: &[String]) -> i32 {
         let h = std::thread::Builder::new().stack_size(64 << 20).spawn(move || {
             let mut out = Vec::new();
             for (pos, idx) in ord.iter().copied().enumerate() {
-                out.push((idx, run_case(&j.cases[idx], j.full, if pos == 0 { j.pause_ms } else { 0 }, j.public_api)));
+                out.push((idx, run_case(&j.cases[idx], j.full, if pos == 0 { j.pause_ms } else { 0 }, j.public_api, &RunEnv { cycle_delays: j.cycle_delays, scratch: j.scratch.clone() })));
             }
             out
         });
